@@ -280,6 +280,236 @@ func (sim *c22Sim) deliver(v *c22Voter, mi int) {
 	sim.judge(v)
 }
 
+// ---------------------------------------------------------------------------
+// split deliveries: a message delivery that is held inside a block-state call
+// while another goroutine performs another action of the same voter.
+//
+// In the service the network handler goroutines (handleNetworkMessage) and the
+// round handler goroutine (finalisation.go) run concurrently; the atomic events
+// of the schedule never exercise that. A split delivery does: the delivery runs
+// on a goroutine of its own and is held in the first call of one block-state
+// method (HasHeader / GetHeader / IsDescendantOf, drawn) - for a vote message
+// that is inside validateVote, after the message was checked against the
+// voter's round and before the vote is recorded - while a second goroutine
+// performs the voter's next protocol step (or another delivery). If the
+// implementation makes the second action wait for the delivery (round lock), it
+// simply blocks until the harness releases the held call after a grace period:
+// the grace period bounds the wait and never decides a verdict.
+
+// c22Grace: how long the held call waits for a concurrent action that takes the round lock
+// (initiateRound, another vote delivery), counted from the moment that action runs;
+// c22LongGrace for actions that take no lock of the delivery in the unchanged code (they
+// return at once; the long bound only keeps the order of the two reproducible on a busy machine).
+const c22Grace = 10 * time.Millisecond
+const c22LongGrace = 2 * time.Second
+const c22Watchdog = 120 * time.Second
+
+var c22PausePoints = []string{"HasHeader", "GetHeader", "IsDescendantOf"}
+
+type c22Pause struct {
+	fn      string
+	mu      sync.Mutex
+	hit     bool
+	reached chan struct{}
+	release chan struct{}
+}
+
+// c22HookBS is the block state a voter's Service talks to: the harness fake,
+// with the possibility to hold the first call of one method.
+type c22HookBS struct {
+	*vBlockState
+	hmu   sync.Mutex
+	armed *c22Pause
+}
+
+func (h *c22HookBS) arm(p *c22Pause) { h.hmu.Lock(); h.armed = p; h.hmu.Unlock() }
+
+func (h *c22HookBS) at(fn string) {
+	h.hmu.Lock()
+	p := h.armed
+	h.hmu.Unlock()
+	if p == nil || p.fn != fn {
+		return
+	}
+	p.mu.Lock()
+	first := !p.hit
+	p.hit = true
+	p.mu.Unlock()
+	if first {
+		close(p.reached)
+		<-p.release
+	}
+}
+
+func (h *c22HookBS) HasHeader(hash common.Hash) (bool, error) {
+	h.at("HasHeader")
+	return h.vBlockState.HasHeader(hash)
+}
+
+func (h *c22HookBS) GetHeader(hash common.Hash) (*types.Header, error) {
+	h.at("GetHeader")
+	return h.vBlockState.GetHeader(hash)
+}
+
+func (h *c22HookBS) IsDescendantOf(parent, child common.Hash) (bool, error) {
+	h.at("IsDescendantOf")
+	return h.vBlockState.IsDescendantOf(parent, child)
+}
+
+// split delivers pool message mi to v, holds the delivery in its first call of
+// block-state method fn and runs second meanwhile on another goroutine; the held
+// call is released when second has returned or after c22Grace (second waits for
+// a lock of the delivery). Both are joined before anything is judged. If the
+// delivery never calls fn, second simply runs after it.
+func (sim *c22Sim) split(v *c22Voter, mi int, fn string, wait time.Duration, second func()) (reached, blocked bool) {
+	if v.phase == c22Crashed {
+		return false, false
+	}
+	p := &c22Pause{fn: fn, reached: make(chan struct{}), release: make(chan struct{})}
+	v.hook.arm(p)
+	from := peer.ID(fmt.Sprintf("p%d", sim.pool[mi].from))
+	wire := sim.pool[mi].wire
+	var panicD, panicS any
+	doneD := make(chan struct{})
+	go func() {
+		defer close(doneD)
+		defer func() { panicD = recover() }()
+		_, _ = v.env.svc.handleNetworkMessage(from, wire)
+	}()
+	select {
+	case <-p.reached:
+		reached = true
+	case <-doneD:
+	}
+	if !reached {
+		v.hook.arm(nil)
+		if panicD != nil {
+			panic(panicD)
+		}
+		second()
+		sim.harvest(v)
+		sim.judge(v)
+		return false, false
+	}
+	doneS, startedS := make(chan struct{}), make(chan struct{})
+	go func() {
+		defer close(doneS)
+		defer func() { panicS = recover() }()
+		close(startedS)
+		second()
+	}()
+	<-startedS
+	grace := time.NewTimer(wait)
+	select {
+	case <-doneS:
+	case <-grace.C:
+		blocked = true
+	}
+	grace.Stop()
+	close(p.release)
+	wd := time.NewTimer(c22Watchdog)
+	defer wd.Stop()
+	for _, ch := range []chan struct{}{doneD, doneS} {
+		select {
+		case <-ch:
+		case <-wd.C:
+			sim.fail("voter k%d: a delivery held in %s and a concurrent action did not both return within %s (deadlock)", v.key, fn, c22Watchdog)
+			return reached, blocked
+		}
+	}
+	v.hook.arm(nil)
+	if panicD != nil {
+		panic(panicD)
+	}
+	if panicS != nil {
+		panic(panicS)
+	}
+	sim.splits++
+	sim.harvest(v)
+	sim.judge(v)
+	return reached, blocked
+}
+
+// ---------------------------------------------------------------------------
+// tally check (second oracle): whatever a voter counts in its current round -
+// the pre-votes and pre-commits it recorded, including the votes kept for
+// equivocators - carries a signature of its authority id over (stage, block,
+// the voter's current round, its set id). A vote signed for another round that
+// is counted in this round is a vote nobody cast: counting it voids the
+// "honest voters hold more than two thirds" premise of the statement. The
+// payload is encoded by hand (vFullVotePayload), the verification is cached.
+
+type c22TallyKey struct {
+	sig   [64]byte
+	auth  ed25519.PublicKeyBytes
+	vote  Vote
+	round uint64
+	setID uint64
+	pv    bool
+}
+
+func (sim *c22Sim) signedFor(sv *SignedVote, pv bool, round, setID uint64) bool {
+	key := c22TallyKey{sv.Signature, sv.AuthorityID, sv.Vote, round, setID, pv}
+	if ok, seen := sim.sigOK[key]; seen {
+		return ok
+	}
+	ok := false
+	stages := []Subround{precommit}
+	if pv {
+		stages = []Subround{prevote, primaryProposal}
+	}
+	if pk, err := ed25519.NewPublicKey(sv.AuthorityID[:]); err == nil {
+		for _, st := range stages {
+			if good, err := pk.Verify(vFullVotePayload(st, sv.Vote, round, setID), sv.Signature[:]); err == nil && good {
+				ok = true
+				break
+			}
+		}
+	}
+	sim.sigOK[key] = ok
+	return ok
+}
+
+func (sim *c22Sim) checkTally(v *c22Voter) {
+	if v.phase == c22Crashed || sim.violation != "" {
+		return
+	}
+	s := v.env.svc
+	round, setID := s.state.round, s.state.setID
+	var bad []string
+	one := func(sv *SignedVote, pv bool, what string) {
+		if sim.signedFor(sv, pv, round, setID) {
+			return
+		}
+		who := -1
+		for i := 0; i < sim.n; i++ {
+			if vPub(i) == sv.AuthorityID {
+				who = i
+			}
+		}
+		bad = append(bad, fmt.Sprintf("voter k%d counts in round %d (set %d) a %s of k%d for b%d that is not signed for that round and set",
+			v.key, round, setID, what, who, sim.blkOf(sv.Vote)))
+	}
+	s.prevotes.Range(func(_, x any) bool { one(x.(*SignedVote), true, "pre-vote"); return true })
+	s.precommits.Range(func(_, x any) bool { one(x.(*SignedVote), false, "pre-commit"); return true })
+	s.mapLock.Lock()
+	for _, l := range s.pvEquivocations {
+		for _, sv := range l {
+			one(sv, true, "equivocatory pre-vote")
+		}
+	}
+	for _, l := range s.pcEquivocations {
+		for _, sv := range l {
+			one(sv, false, "equivocatory pre-commit")
+		}
+	}
+	s.mapLock.Unlock()
+	if len(bad) > 0 {
+		sort.Strings(bad)
+		sim.fail("%s", bad[0])
+	}
+}
+
 func (sim *c22Sim) crashed(v *c22Voter, why string, err error) {
 	v.phase = c22Crashed
 	v.crash = fmt.Sprintf("%s: %v", why, err)
@@ -622,7 +852,8 @@ const c22Rule = "n in 4..7 voters (real ed25519 keys), f <= floor((n-1)/3) Byzan
 	"schedule of 20-200 rapid-drawn events: honest voter performs its next step (initiateRound / pre-vote / pre-commit when a pre-vote supermajority is seen / attemptToFinalize+commit, as finalisation.go), " +
 	"sync (deliver all new messages to one voter, optionally lossy), deliver or duplicate one message of any age, Byzantine vote (any stage/block/round, to any subset, also with a forged authority id), " +
 	"Byzantine commit (any target/round, any subset of the pre-commit signatures on the network + fresh own ones + forged / duplicated entries, to any subset), Byzantine storm (votes for each voter's own best block, optionally forged ones for all others), Byzantine barrage (3-8 conflicting votes of one round and stage to one honest voter), best-block change, tick (all step + all sync); optional partition of one honest voter from the other honest voters for one round; at most 3 rounds. " +
-	"Oracle: all SetFinalisedHash blocks of all honest voters pairwise on one chain. Non-trivial = a non-genesis block was finalised and a Byzantine equivocation or a lost message occurred; distinct by (n, Byzantine set, tree, best blocks, event list)."
+	"An eighth of the schedules is interleaved: one event in twenty is a split delivery - a message (mostly a current-round vote of another voter) is delivered to a voter (mostly one that knows its round is finalised and has not started the next) on a goroutine of its own, held inside a drawn block-state call (HasHeader / GetHeader / IsDescendantOf, i.e. inside the validation) while a second goroutine performs the voter's next step (5/6) or another delivery (1/6), then released (after the second action returned, or after a bounded grace period if it waits for a lock of the delivery); both are joined before judging. " +
+	"Oracle: all SetFinalisedHash blocks of all honest voters pairwise on one chain; and every pre-vote / pre-commit (incl. equivocatory ones) a voter counts in its current round is signed by its authority for that round and set (hand-encoded payload). Non-trivial = a non-genesis block was finalised and a Byzantine equivocation or a lost message occurred; distinct by (n, Byzantine set, tree, best blocks, event list)."
 
 func c22Subset(t *rapid.T, sim *c22Sim, label string) uint32 {
 	if rapid.IntRange(0, 2).Draw(t, label+"All") == 0 {
@@ -692,11 +923,16 @@ func c22Schedule(t *rapid.T, gate bool) *c22Sim {
 			bests[isoVictim] = leaves[rapid.IntRange(0, len(leaves)-1).Draw(t, "victimBest")]
 		}
 	}
+	// an eighth of the schedules has split deliveries, there one event in twenty (see c22Sim.split)
+	inter := rapid.IntRange(0, 7).Draw(t, "interleaved") == 0
 	sim, err := newC22Sim(n, byz, tree.parent, bests, gate)
 	if err != nil {
 		t.Fatalf("harness: %v", err)
 	}
 	head := sim.header()
+	if inter {
+		head += " interleaved"
+	}
 	if iso {
 		sim.isoVictim = isoVictim
 		sim.isoRound = uint64(rapid.SampledFrom([]int{1, 1, 1, 2}).Draw(t, "isoRound")) //nolint:gosec
@@ -727,6 +963,10 @@ func c22Schedule(t *rapid.T, gate bool) *c22Sim {
 
 	events := rapid.IntRange(20, 200).Draw(t, "events")
 	for e := 0; e < events && sim.violation == ""; e++ {
+		if inter && len(sim.pool) > 0 && rapid.IntRange(0, 19).Draw(t, "splitNow") == 0 {
+			c22SplitEvent(t, sim)
+			continue
+		}
 		k := rapid.IntRange(0, 99).Draw(t, "event")
 		if iso && rapid.IntRange(0, 2).Draw(t, "isoBias") == 0 {
 			k = rapid.SampledFrom([]int{86, 86, 78, 94, 94}).Draw(t, "isoEvent") // barrage, storm, tick
@@ -923,6 +1163,75 @@ func c22Schedule(t *rapid.T, gate bool) *c22Sim {
 	}
 	sim.log = append([]string{head}, sim.log...)
 	return sim
+}
+
+// c22SplitEvent: one split delivery. The voter is mostly one that stands at a
+// round boundary (it knows its round is finalised and has not started the next
+// one), the message mostly a vote of the voter's current round by another
+// voter, the concurrent action mostly the voter's next protocol step.
+func c22SplitEvent(t *rapid.T, sim *c22Sim) {
+	var boundary []*c22Voter
+	for _, h := range sim.honest {
+		if hv := sim.voters[h]; hv.phase == c22Init && hv.env.svc.state.round >= 1 {
+			boundary = append(boundary, hv)
+		}
+	}
+	var v *c22Voter
+	if len(boundary) > 0 && rapid.IntRange(0, 3).Draw(t, "splitBoundary") > 0 {
+		v = boundary[rapid.IntRange(0, len(boundary)-1).Draw(t, "splitVoter")]
+	} else {
+		v = sim.voters[sim.honest[rapid.IntRange(0, len(sim.honest)-1).Draw(t, "splitVoter")]]
+	}
+	if v.phase == c22Crashed {
+		return
+	}
+	roundBefore, phaseBefore := v.env.svc.state.round, v.phase
+	var cands []int
+	for i, m := range sim.pool {
+		if m.isVote && m.round == roundBefore && m.author != v.key {
+			cands = append(cands, i)
+		}
+	}
+	var mi int
+	if len(cands) > 0 && rapid.IntRange(0, 3).Draw(t, "splitCurrentVote") > 0 {
+		mi = cands[rapid.IntRange(0, len(cands)-1).Draw(t, "splitMessage")]
+	} else {
+		mi = rapid.IntRange(0, len(sim.pool)-1).Draw(t, "splitMessage")
+	}
+	fn := rapid.SampledFrom(c22PausePoints).Draw(t, "splitAt")
+	var second func()
+	what, wait := "step", c22Grace
+	if rapid.IntRange(0, 5).Draw(t, "splitSecond") == 0 {
+		m2 := rapid.IntRange(0, len(sim.pool)-1).Draw(t, "splitSecondMessage")
+		what = fmt.Sprintf("deliver m%d(%s)", m2, sim.pool[m2].descr)
+		from, wire := peer.ID(fmt.Sprintf("p%d", sim.pool[m2].from)), sim.pool[m2].wire
+		second = func() { _, _ = v.env.svc.handleNetworkMessage(from, wire) }
+		sim.labels["split:second=deliver"] = true
+	} else {
+		second = func() { sim.step(v) }
+		sim.labels["split:second=step"] = true
+		if v.phase != c22Init {
+			wait = c22LongGrace // only initiateRound takes the round lock
+		}
+	}
+	sim.logf("split k%d <- m%d(%s) held in %s || %s", v.key, mi, sim.pool[mi].descr, fn, what)
+	cur := sim.pool[mi]
+	reached, blocked := sim.split(v, mi, fn, wait, second)
+	switch {
+	case !reached:
+		sim.labels["split-not-reached"] = true
+	default:
+		sim.labels["split-delivery"] = true
+		if blocked {
+			sim.labels["split-second-waited"] = true
+		}
+		if cur.isVote && cur.round == roundBefore && v.phase != c22Crashed && v.env.svc.state.round > roundBefore {
+			sim.labels["split-vote-across-round-start"] = true
+			if phaseBefore == c22Init && roundBefore >= 1 {
+				sim.labels["split-vote-across-round-start:after-finalisation"] = true
+			}
+		}
+	}
 }
 
 func (sim *c22Sim) caseLabels() (bool, []string) {
@@ -1162,6 +1471,71 @@ func c22BarrageScenario() (*c22Sim, error) {
 	return sim, nil
 }
 
+// c22SplitScenario: pinned split delivery, modelled on the demonstration of a
+// seeded change that released the round lock of validateVoteMessage after the
+// round check. n=4, k3 Byzantine, tree b0-b1-{b2,b3}, best blocks k0:b2 k1:b2
+// k2:b3. Round 1: k3 pre-votes b2 towards k1 and b3 towards k0,k2, so k1
+// pre-commits b2 while k0 and k2 pre-commit their GHOST b1; with k3's pre-commit
+// for b1, k0 finalises b1. k1's round-1 pre-commit for b2 then reaches k0 and is
+// held in HasHeader (inside validateVote) while k0's round handler starts
+// round 2. The vote may be recorded for round 1 (which is over) or rejected; it
+// must not be counted in round 2.
+func c22SplitScenario() (*c22Sim, bool, error) {
+	sim, err := newC22Sim(4, []int{3}, []int{-1, 0, 1, 1}, map[int]int{0: 2, 1: 2, 2: 3}, false)
+	if err != nil {
+		return nil, false, err
+	}
+	k0, k1, k2 := sim.voters[0], sim.voters[1], sim.voters[2]
+	find := func(descr string) int {
+		for i, m := range sim.pool {
+			if m.descr == descr {
+				return i
+			}
+		}
+		return -1
+	}
+	give := func(v *c22Voter, descr string) error {
+		i := find(descr)
+		if i < 0 {
+			return fmt.Errorf("scenario: message %s is not on the network (%v)", descr, sim.log)
+		}
+		sim.logf("deliver k%d <- %s", v.key, descr)
+		sim.deliver(v, i)
+		return nil
+	}
+	for _, v := range []*c22Voter{k0, k1, k2} {
+		sim.step(v) // initiateRound -> round 1
+		sim.step(v) // pre-vote: k0 b2, k1 (primary) b2, k2 b3
+	}
+	sim.byzVote(3, prevote, 2, 1, 1<<1, 3)
+	sim.byzVote(3, prevote, 3, 1, 1<<0|1<<2, 3)
+	for _, x := range []struct {
+		v *c22Voter
+		m string
+	}{{k1, "pv:k0:r1:b2"}, {k1, "pv:k3:r1:b2"}, {k0, "pv:k2:r1:b3"}, {k0, "pv:k3:r1:b3"}, {k2, "pv:k0:r1:b2"}, {k2, "pv:k3:r1:b3"}} {
+		if err := give(x.v, x.m); err != nil {
+			return sim, false, err
+		}
+	}
+	for _, v := range []*c22Voter{k0, k1, k2} {
+		sim.step(v) // pre-commit: k0 b1, k1 b2, k2 b1
+	}
+	sim.byzVote(3, precommit, 1, 1, 1<<0|1<<2, 3)
+	for _, m := range []string{"pc:k2:r1:b1", "pc:k3:r1:b1"} {
+		if err := give(k0, m); err != nil {
+			return sim, false, err
+		}
+	}
+	sim.step(k0) // finalises b1 in round 1
+	late := find("pc:k1:r1:b2")
+	if late < 0 || k0.phase != c22Init || k0.env.svc.state.round != 1 {
+		return sim, false, fmt.Errorf("scenario: k0 did not finalise round 1 or k1 did not pre-commit b2 (%v)", sim.log)
+	}
+	sim.logf("split k0 <- pc:k1:r1:b2 held in HasHeader || step")
+	reached, _ := sim.split(k0, late, "HasHeader", c22Grace, func() { sim.step(k0) })
+	return sim, reached, nil
+}
+
 // TestC22Regressions: the recorded schedule must be safe unless the finding is
 // listed as open; with the steering on it must be withheld, not violated.
 func TestC22Regressions(t *testing.T) {
@@ -1186,6 +1560,16 @@ func TestC22Regressions(t *testing.T) {
 	}
 	if len(sim.finals) == 0 {
 		t.Fatalf("barrage schedule: nothing was finalised\n%s", strings.Join(sim.log, "\n"))
+	}
+	sim, reached, err := c22SplitScenario()
+	if err != nil {
+		t.Fatalf("harness: %v", err)
+	}
+	if sim.violation != "" {
+		t.Fatalf("%s\nschedule:\n%s", sim.violation, strings.Join(sim.log, "\n"))
+	}
+	if !reached || sim.voters[0].env.svc.state.round != 2 {
+		t.Fatalf("split schedule: the held delivery was not reached or k0 did not start round 2\n%s", strings.Join(sim.log, "\n"))
 	}
 }
 
